@@ -17,14 +17,19 @@ RULE = ('corpus; quota grid: votes 0..300 x seats 1..40 (+1e3 large random pairs
         'absent|present; boundary: votes an exact multiple of the quota, Imperiali over-award, equal remainders at the cut, '
         'tiny electorates; after-tie: on_overaward=subtract with an over-award of 2..4 seats and a group of parties tied for the '
         'first withdrawal, so that _subtract_overaward goes on with a Tie key in `selected` (counted on the implementation side as '
-        'reached:subtract-after-tie); both QuotaDistributor and LargestRemainder. non-trivial = tie in result or prev/caps non-empty or '
-        'over-award or a party exactly on a quota multiple; distinct by hash of the canonical case. Cases in the recorded '
-        'defect classes (cap branch entered, negative n_for_remainder) are compared with the faithful model and judged by '
-        'the declarative caps/total checker')
-PARTIAL = ['capped statement: refuted on the pinned tree (known findings C02-capbranch, C02-lr-caps); the positive theorem is stated for the uncapped domain',
-           '_subtract_overaward: a Tie key tied with another key (a Tie of a Tie) is not modelled - proved unreachable on the '
-           'uncapped domain with a positive quota (C02_subtract_modelled); tie keys coming back from the recursive cap call and '
-           'LargestRemainder over tie keys: not modelled (cases skipped and counted)']
+        'reached:subtract-after-tie); caps: caps below / at / one above the whole quotas, with previous gains, below the previous gains, '
+        'every party capped (open seats outnumber the parties that may take one), whole quotas above the house without a cap (counted as '
+        'reached:cap-binds:<unit> when a cap cuts whole quotas); both QuotaDistributor and LargestRemainder. non-trivial = tie in result or '
+        'prev/caps non-empty or over-award or a party exactly on a quota multiple; distinct by hash of the canonical case. Every '
+        'implementation answer is compared with the extracted model AND judged by the declarative clauses of the property (spec: caps, '
+        'whole quotas cut at the cap, at most one further seat to the largest remainders below the caps, ties at the cut, totals, the '
+        'three over-award policies). Skipped and counted: non-positive quota, previous gains above the house, more than 3000 rounds '
+        'of _subtract_overaward')
+PARTIAL = ['LargestRemainder under-fills the house when the open seats outnumber the parties below their caps: at most one further seat per '
+           'party is the documented design (known finding C02-lr-underfill; exact total proved, C02_lr_caps)',
+           '_subtract_overaward: a Tie key tied with another key (a Tie of a Tie) is not modelled - proved unreachable with a positive quota '
+           'for any caps (C02_subtract_policy_capped); LargestRemainder over a quota stage that returned tie keys: not modelled (cases '
+           'skipped and counted)']
 TRUSTED = []
 QN = {1: 'hare', 2: 'hare_rounded', 3: 'droop', 4: 'hagenbach_bischoff', 5: 'hagenbach_bischoff_ceil',
       6: 'hagenbach_bischoff_rounded', 7: 'imperiali'}
@@ -105,7 +110,10 @@ def canon(c, wire):
     return ('ok', tuple(sorted(items, key=repr)))
 
 
-# ---- classification into the recorded defect classes (computed from the input alone)
+# ---- the declarative clauses of the property, computed from the input alone and judged on the implementation's answer
+SUBTRACT_ROUNDS_MAX = 3000      # _subtract_overaward withdraws one seat per round: an over-award beyond this is not evaluated
+
+
 def whole(c):
     total = sum(q(v) for _, v in c['votes'])
     try:
@@ -122,74 +130,128 @@ def whole(c):
     return qv, w
 
 
+def base_seats(c):
+    """per party of the votes: the seats it holds after the whole-quota stage, previous gains included -
+    its whole quotas, cut at its cap, or its previous gains if these are more"""
+    qv, w = whole(c)
+    prev, caps = dict(c['prev']), dict(c['caps'])
+    base = {}
+    for k, wk in w.items():
+        held = min(wk, caps[k]) if k in caps else wk
+        base[k] = max(prev.get(k, 0), held)
+    outside = sum(s for k, s in prev.items() if k not in w)
+    return qv, w, base, outside
+
+
 def classify(c):
     qv, w = whole(c)
     if qv is None or qv <= 0:
         return 'nonpositive-quota'
-    prev, caps = dict(c['prev']), dict(c['caps'])
-    n = c['n']
-    qd_caps = caps if c['unit'] == 'quota_distributor' else {}
-    for k, wk in w.items():
-        if wk - prev.get(k, 0) > 0 and wk > qd_caps.get(k, n):
-            return 'capbranch'
-    if c['unit'] == 'largest_remainder':
-        if any(max(w.get(k, 0), prev.get(k, 0)) > m for k, m in caps.items()):
-            return 'lr-caps'
-        tot = sum(max(wk, prev.get(k, 0)) for k, wk in w.items()) + sum(s for k, s in prev.items() if k not in w)
-        if tot > n and c['pol'] == 0:
-            return 'lr-negative'
-    if sum(prev.values()) > n:
+    prev = dict(c['prev'])
+    if sum(prev.values()) > c['n'] or any(s < 0 for s in prev.values()):
         return 'prev-exceeds-house'
+    _, _, base, outside = base_seats(c)
+    if c['pol'] == 2 and sum(base.values()) + outside - c['n'] > SUBTRACT_ROUNDS_MAX:
+        return 'subtract-rounds'
     return None
 
 
 def spec(c, io, mo):
-    """declarative clauses evaluated on the implementation's output, for cases in a defect class"""
+    """the declarative clauses of C02 evaluated on the implementation's output (independent of the model)"""
     cls = classify(c)
     c['_class'] = cls
     v = common.parse_sx(io)
     m = common.parse_sx(mo)
     if v[0] == 0 and any(isinstance(k, list) for k, _ in v[1]):
         c['_tie'] = True
-    if cls in (None,):
-        if m[0] == 4:
-            c['_skip'] = True
-        # in-domain LargestRemainder: the total must equal the house when the whole quotas fit
-        if c['unit'] == 'largest_remainder' and v[0] == 0 and not c['caps']:
-            prev = dict(c['prev'])
-            qv, w = whole(c)
-            wsum = sum(max(wk, prev.get(k, 0)) for k, wk in w.items()) + sum(s for k, s in prev.items() if k not in w)
-            tot = sum(s for _, s in v[1]) + sum(prev.values())
-            if wsum <= c['n'] and tot != c['n']:
-                if c['n'] - wsum > len(c['votes']):
-                    c['_class'] = 'lr-underfill'   # more open seats than parties: one remainder seat each cannot fill them
-                return 'total %d differs from the %d seats to fill although the whole quotas fit (lr-underfill)' % (tot, c['n'])
+    if cls is not None:
+        c['_skip'] = True          # outside the property's quantifier / not evaluable
         return None
-    if cls in ('nonpositive-quota', 'prev-exceeds-house'):
-        c['_skip'] = True          # outside the property's quantifier
-        return None
-    if v[0] != 0:
-        if v[1] == common.E['VSE'] and c['pol'] == 1:
-            return None
-        return 'crash (%s) in defect class %s' % (common.E_NAME.get(v[1], v[1]), cls)
+    if m[0] == 4:
+        c['_skip'] = True
+    n, pol = c['n'], c['pol']
     prev, caps = dict(c['prev']), dict(c['caps'])
+    qv, w, base, outside = base_seats(c)
+    base_total = sum(base.values()) + outside
+    over = base_total > n
+    if any(k in caps and w[k] > caps[k] and prev.get(k, 0) <= caps[k] for k in w):
+        c['_reached'] = 'cap-binds'
+    if over and pol == 1:
+        if v[0] != 0 and v[1] == common.E['VSE']:
+            return None
+        return 'whole quotas (%d with previous gains) exceed the %d seats, on_overaward=error, but no VotingSystemError' % (base_total, n)
+    if v[0] != 0:
+        return 'raises %s' % common.E_NAME.get(v[1], v[1])
     got = {k: s for k, s in v[1] if not isinstance(k, list)}
-    qv, w = whole(c)
+    ties = [(k, s) for k, s in v[1] if isinstance(k, list)]
+    tie_members = set(x for k, _ in ties for x in k)
+    tot = sum(s for _, s in v[1]) + sum(prev.values())
+    for k, s in got.items():
+        if k not in w:
+            return 'seats for %r, which has no votes' % (k,)
+        if s <= 0:
+            return 'party %d is listed with %d seats' % (k, s)
+    # caps are never exceeded - also not through a seat held by a tie object the party is a member of
     for k, mcap in caps.items():
-        if got.get(k, 0) + prev.get(k, 0) > max(mcap, prev.get(k, 0)):
-            return 'party %d lifted above its cap (%s)' % (k, cls)
-    for k, wk in w.items():
-        cap_k = caps.get(k, None)
-        want = wk if cap_k is None else min(wk, cap_k)
-        if c['pol'] != 2 and got.get(k, 0) + prev.get(k, 0) < want:
-            return 'party %d receives fewer than its whole quotas (%s)' % (k, cls)
-    if c['unit'] == 'largest_remainder':
-        tot = sum(s for _, s in v[1]) + sum(prev.values())
-        wsum = sum(max(wk, prev.get(k, 0)) for k, wk in w.items())
-        if wsum <= c['n'] and tot > c['n']:
-            return 'more seats than the house (%s)' % cls
-        if c['pol'] == 0 and tot > max(c['n'], wsum + sum(s for k, s in prev.items() if k not in w)):
-            return 'more seats than whole quotas although nothing is left for remainders (%s)' % cls
+        if prev.get(k, 0) <= mcap and got.get(k, 0) + prev.get(k, 0) + (1 if k in tie_members else 0) > mcap:
+            return 'party %d lifted above its cap' % k
+    withdrawn = over and pol == 2
+    if withdrawn:
+        # seats are withdrawn until the house is met; nobody holds more than before
+        if tot != n:
+            return 'on_overaward=subtract leaves %d seats, %d to fill' % (tot, n)
+        for k in w:
+            if got.get(k, 0) + prev.get(k, 0) > base[k]:
+                return 'party %d holds more than its whole quotas after the withdrawal' % k
+        return None
+    lr = c['unit'] == 'largest_remainder' and not over
+    if not lr:
+        # quota stage (or surplus kept): exactly the whole quotas cut at the cap
+        if ties:
+            return 'tie object without a withdrawal'
+        for k in w:
+            if got.get(k, 0) + prev.get(k, 0) != base[k]:
+                return 'party %d holds %d seats, whole quotas cut at the cap give %d' % (k, got.get(k, 0) + prev.get(k, 0), base[k])
+        return None
+    # remainder stage: at most one further seat each, to the largest exact remainders among the parties below their caps
+    elig = [k for k in w if k not in caps or base[k] < caps[k]]
+    rem = {k: q(dict((a, b) for a, b in c['votes'])[k]) / qv - base[k] for k in elig}
+    extra = set()
+    for k in w:
+        d = got.get(k, 0) + prev.get(k, 0) - base[k]
+        if d not in (0, 1):
+            return 'party %d holds %d seats, whole quotas cut at the cap give %d' % (k, got.get(k, 0) + prev.get(k, 0), base[k])
+        if d == 1:
+            if k not in elig:
+                return 'party %d lifted above its cap' % k
+            extra.add(k)
+    if len(ties) > 1:
+        return 'several tie objects'
+    tm = set()
+    if ties:
+        tm, ts = set(ties[0][0]), ties[0][1]
+        if not tm <= set(elig) or tm & extra or not (0 < ts < len(tm)):
+            return 'tie object %s for %d seats is not a tie of eligible parties without a further seat' % (sorted(tm), ts)
+        if len(set(rem[k] for k in tm)) != 1:
+            return 'tie object over unequal remainders'
+    losers = [k for k in elig if k not in extra and k not in tm]
+    cut_hi = min([rem[k] for k in extra] + [rem[k] for k in tm]) if (extra or tm) else None
+    if tm and extra and min(rem[k] for k in extra) <= rem[min(tm)]:
+        return 'a further seat below or at the tied remainder'
+    if losers and cut_hi is not None:
+        mx = max(rem[k] for k in losers)
+        if mx >= cut_hi:
+            return 'a further seat went past a party with a remainder at least as large (equal remainders at the cut must be a tie)'
+    open_seats = n - base_total
+    if open_seats <= len(elig):
+        if tot != n:
+            return 'total %d differs from the %d seats to fill although enough parties can take a further seat' % (tot, n)
+    else:
+        # at most one further seat per party (docstring: "get an extra seat"): the house cannot be filled
+        c['_class'] = 'lr-underfill'
+        if tot != base_total + len(elig):
+            return 'total %d: every eligible party should hold one further seat (lr-underfill)' % tot
+        return 'total %d differs from the %d seats to fill: open seats outnumber the parties that may take one (lr-underfill)' % (tot, n)
     return None
 
 
@@ -198,7 +260,7 @@ def known_class(c, io, mo):
     same = canon(c, io) == canon(c, mo) or common.parse_sx(mo)[0] == 4
     if not same:
         return None
-    return {'capbranch': 'C02-capbranch', 'lr-caps': 'C02-lr-caps', 'lr-underfill': 'C02-lr-underfill'}.get(cls)
+    return {'lr-underfill': 'C02-lr-underfill'}.get(cls)
 
 
 def canon2(c, wire):
@@ -283,6 +345,52 @@ def gen_boundary(rng, count):
                    pol=rng.randint(0, 2), votes=votes, n=n, prev=[], caps=[], boundary=True)
 
 
+def gen_caps(rng, count):
+    """caps that bind: a cap below / at / one above a party's whole quotas, with and without previous gains, a cap below the
+    previous gains, every party capped (open seats outnumber the parties that may take a further seat), whole quotas above the
+    house without any cap (Imperiali / small constant quota: the over-award policies decide, the pinned tree took its cap branch)"""
+    for _ in range(count):
+        m = rng.randint(1, 5)
+        ids = list(range(1, m + 1))
+        rng.shuffle(ids)
+        kind = rng.choice(['bind', 'bind', 'bind-prev', 'all-capped', 'above-house', 'edge'])
+        t = rng.choice([1, 3, 10, 17, 10 ** 20])
+        n = rng.randint(1, 12)
+        parts = [rng.randint(0, 6) for _ in ids]
+        if sum(parts) == 0:
+            parts[0] = 2
+        votes = [[k, p * t + (rng.randint(0, t - 1) if t > 1 and rng.random() < 0.7 else 0)] for k, p in zip(ids, parts)]
+        quota = [0, jq(Fraction(t))] if rng.random() < 0.6 else [rng.choice([1, 3, 4, 7])]
+        prev, caps = [], []
+        c0 = dict(unit='x', quota=quota, ae=True, pol=0, votes=votes, n=n, prev=[], caps=[])
+        qv, w = whole(c0)
+        if qv is None or qv <= 0:
+            continue
+        if kind == 'above-house':
+            quota = [7] if rng.random() < 0.5 else [0, jq(Fraction(max(1, t // 2) if t < 100 else t))]
+            n = rng.randint(1, 3)
+        elif kind == 'all-capped':
+            caps = [[k, max(0, w[k] + rng.choice([-1, 0, 0, 1]))] for k in ids]
+            n = sum(w.values()) + rng.randint(0, m + 2)
+        else:
+            budget = n
+            for k in rng.sample(ids, rng.randint(1, m)):
+                if kind == 'bind-prev' and budget > 0 and rng.random() < 0.7:
+                    s0 = rng.randint(1, min(budget, 3))
+                    budget -= s0
+                    prev.append([k, s0])
+            pd = dict(prev)
+            for k in rng.sample(ids, rng.randint(1, m)):
+                if kind == 'edge':
+                    caps.append([k, rng.choice([0, pd.get(k, 0), max(0, pd.get(k, 0) - 1), w[k], w[k] + 1])])
+                else:
+                    caps.append([k, max(0, w[k] - rng.choice([0, 1, 1, 2, 3])) if w[k] else rng.randint(0, 2)])
+            if rng.random() < 0.5:
+                n = max(1, sum(w.values()) + rng.randint(-1, 2))
+        yield dict(unit=rng.choice(['quota_distributor', 'largest_remainder', 'largest_remainder']), quota=quota,
+                   ae=rng.random() < 0.7, pol=rng.randint(0, 2), votes=votes, n=max(n, 1), prev=prev, caps=caps, boundary=True)
+
+
 def gen_after_tie(rng, count):
     """on_overaward='subtract', an over-award of at least two seats, a group of parties tied for the first withdrawal:
     _subtract_overaward continues with the Tie object as a key of `selected`"""
@@ -333,7 +441,7 @@ def differential(ctx, stream, cases):
     keep = []
     for c in cases:
         cls = classify(c)
-        if cls in ('nonpositive-quota', 'prev-exceeds-house'):
+        if cls is not None:
             ctx.dist['skipped:' + cls] += 1
             continue
         keep.append(c)
@@ -359,6 +467,8 @@ def differential(ctx, stream, cases):
                 why = why or 'implementation differs from the proved model (%s)' % stream
             elif why is None:
                 ctx.notes.append('class %s: implementation no longer behaves as recorded but satisfies the checker' % cls)
+        if c.get('_reached'):
+            ctx.dist['reached:' + c['_reached'] + ':' + c['unit']] += 1
         if c.get('_after_tie'):
             ctx.dist['reached:subtract-after-tie'] += 1
             if cm == ('unmodelled',):
@@ -384,6 +494,7 @@ def explore(ctx, widen=1):
     differential(ctx, 'random', gen_random(ctx.rng, ctx.n(2500, 30000) * widen))
     differential(ctx, 'boundary', gen_boundary(ctx.rng, ctx.n(800, 8000) * widen))
     differential(ctx, 'after-tie', gen_after_tie(ctx.rng, ctx.n(400, 4000) * widen))
+    differential(ctx, 'caps', gen_caps(ctx.rng, ctx.n(1500, 15000) * widen))
 
 
 def replay(ctx, case, stream=None):
